@@ -6,6 +6,7 @@
 import ErgoProofs.Lemmas.StorageThm
 import ErgoProofs.Lemmas.CodecInst
 import ErgoProofs.Lemmas.ProcBytesThm
+import ErgoProofs.Lemmas.FilesThm
 namespace Ergo
 open Storage
 
@@ -83,5 +84,30 @@ theorem C03_store_loads_under_every_schedule_and_kill {a b : ProcB.BSys} (h : Pr
 theorem C03_death_inside_a_write_shows_a_prefix (s s' : ProcB.BSys) (hinv : ProcB.Inv s) (h : ProcB.BStep s s') :
     ProcB.Inv s' ∧ (Proc.Step (ProcB.abs s) (ProcB.abs s') ∨ (ProcB.Torn s s' ∧ ProcB.TornResult s s')) :=
   ProcB.step_sim s s' hinv h
+
+/-! ### call by call on the two names of the store (ErgoModel.Files) -/
+
+/-- a rewrite (compact, plan, the tail repair) killed after any number of its calls short of the rename leaves the log's name alone -/
+theorem C03_rewrite_publishes_only_by_its_rename (s : Files.St) (trunc : Bool) (chunks : List Bytes) (k : Nat)
+    (hk : k < (Files.rewrite trunc chunks).length) : (Files.run s ((Files.rewrite trunc chunks).take k)).dir.log = s.dir.log :=
+  Files.rewrite_killed s trunc chunks k hk
+
+/-- …and a completed one publishes exactly the new content, whatever an earlier killed rewrite left in the temporary file -/
+theorem C03_stale_temporary_file_is_harmless (s : Files.St) (chunks : List Bytes) :
+    (Files.run s (Files.rewrite true chunks)).dir = { log := some chunks.flatten, tmp := none } :=
+  Files.rewrite_complete s chunks
+
+/-- that rests on `O_TRUNC` (a T3 obligation on every traced open of the temporary file): without it stale bytes survive -/
+theorem C03_without_truncation_stale_bytes_survive :
+    (Files.run { dir := { log := some [1], tmp := some [7, 7, 7, 10] } } (Files.rewrite false [[9, 10]])).dir.log = some [9, 10, 7, 10] :=
+  Files.rewrite_without_trunc_keeps_stale_bytes
+
+/-- `appendEvents` killed between any two of its calls: under the log's name is the old file, the repaired file, or the final file — the three
+    files the byte-level theorems above speak about -/
+theorem C03_append_killed_between_calls (classify : Bytes → LineClass) (encode : Event → Bytes) (f : Bytes) (t : Option Bytes) (fds : Files.Fds)
+    (evs : List Event) (k : Nat) :
+    let g := (Files.run { dir := { log := some f, tmp := t }, fds } ((Files.appendProgram classify f (linesOf encode evs)).take k)).dir.log
+    g = some f ∨ g = some (repairTail classify f) ∨ g = some (appendFile classify encode f evs) :=
+  Files.appendProgram_killed classify encode f t fds evs k
 
 end Ergo
